@@ -1,6 +1,8 @@
 package l0
 
 import (
+	"database/sql"
+	"context"
 	"bufio"
 	"encoding/json"
 	"errors"
@@ -317,6 +319,12 @@ func (r *Runner) Run(name string, cfg Cfg, ops []Op) error {
 			}
 			continue
 		}
+		if op.Op == "HandleRace" {
+			if err := r.handleRace(store, dump, clk, book, cfg, dbPath, op); err != nil {
+				return fmt.Errorf("%s: HandleRace: %w", name, err)
+			}
+			continue
+		}
 		if op.Op == "FilterRace" {
 			if err := r.filterRace(store, dump, clk, book, op); err != nil {
 				return fmt.Errorf("%s: FilterRace: %w", name, err)
@@ -615,6 +623,98 @@ func (b *leaseBook) Resolve(l LeaseRef) string { return b.resolve(l) }
 // ExecOp executes one store-level operation and returns its event (without post-state).
 func ExecOp(store queue.Store, clk *Clock, book *LeaseBook, op Op) (Event, error) { return execOp(store, clk, book, op) }
 
+
+// handleRace: two handles on one SQLite database (the running gateway and a second opener of the file - `hookaido mcp` in
+// direct mode, another instance).  Inner[0] is an operator mutation made through a SECOND handle, Inner[1] a lease operation
+// of the main handle.  A third connection takes the database's write lock first; the lease operation is started and gets
+// as far as it can without the lock, then the operator call is started and waits for the lock as well; the lock is
+// released and the two commit in whichever order SQLite grants it.  Whatever that order is, the pair must look like the two
+// calls made one after the other in SOME order (TraceHandleRace): a decision taken on what was read before the lock was
+// granted is not such an outcome.  On the memory store (one handle by construction) the two run one after the other.
+func (r *Runner) handleRace(store queue.Store, dump Dumper, clk *Clock, book *leaseBook, cfg Cfg, dbPath string, op Op) error {
+	if len(op.Inner) != 2 {
+		return errors.New("HandleRace needs two inner operations")
+	}
+	first, second := op.Inner[0], op.Inner[1]
+	var ev1, ev2 Event
+	if _, isSQL := store.(*queue.SQLiteStore); !isSQL {
+		var err error
+		if ev1, err = execOp(store, clk, book, first); err != nil {
+			return err
+		}
+		if ev2, err = execOp(store, clk, book, second); err != nil {
+			return err
+		}
+	} else {
+		storeB, _, closeB, err := OpenStore(cfg, clk, dbPath)
+		if err != nil {
+			return fmt.Errorf("second handle: %w", err)
+		}
+		defer closeB()
+		raw, err := sql.Open("sqlite", dbPath)
+		if err != nil {
+			return err
+		}
+		defer raw.Close()
+		ctx := context.Background()
+		conn, err := raw.Conn(ctx)
+		if err != nil {
+			return err
+		}
+		defer conn.Close()
+		if _, err := conn.ExecContext(ctx, "PRAGMA busy_timeout=5000;"); err != nil {
+			return err
+		}
+		if _, err := conn.ExecContext(ctx, "BEGIN IMMEDIATE;"); err != nil {
+			return fmt.Errorf("lock holder: %w", err)
+		}
+		type res struct {
+			ev  Event
+			err error
+		}
+		doneA := make(chan res, 1)
+		doneB := make(chan res, 1)
+		go func() {
+			ev, err := execOp(store, clk, book, second)
+			doneA <- res{ev, err}
+		}()
+		// the lease call reads what it reads without the lock, then waits for it; SQLite's busy handler polls at growing
+		// intervals (1 ... 100 ms), so a waiter that has waited long is usually overtaken by one that has just arrived:
+		// mostly the operator is given the lock first, sometimes (short wait) the lease call
+		wait := 140 * time.Millisecond
+		if r.n%4 == 0 {
+			wait = 15 * time.Millisecond
+		}
+		time.Sleep(wait)
+		go func() {
+			ev, err := execOp(storeB, clk, book, first)
+			doneB <- res{ev, err}
+		}()
+		time.Sleep(4 * time.Millisecond)
+		if _, err := conn.ExecContext(ctx, "ROLLBACK;"); err != nil {
+			return fmt.Errorf("lock holder: %w", err)
+		}
+		var ra, rb res
+		for k := 0; k < 2; k++ {
+			select {
+			case ra = <-doneA:
+			case rb = <-doneB:
+			case <-time.After(30 * time.Second):
+				return errors.New("the two calls did not finish")
+			}
+		}
+		if rb.err != nil {
+			return rb.err
+		}
+		if ra.err != nil {
+			return ra.err
+		}
+		ev1, ev2 = rb.ev, ra.ev
+	}
+	ev := Event{"ev": "HandleRace", "a": map[string]any{"first": ev1["a"], "second": ev2["a"], "second_ev": ev2["ev"]},
+		"r": map[string]any{"first": ev1["r"], "second": ev2["r"]}}
+	return r.EmitWithPost(ev, dump, clk)
+}
 
 // filterRaceMu serialises FilterRace executions: the gate is global to the process.
 var filterRaceMu sync.Mutex
